@@ -229,12 +229,41 @@ func c02Derive(c *Ctx) {
 	var hmacSites []ssa.CallInstruction
 	site := map[string]ssa.CallInstruction{}
 	retryI := map[string]*ana.Term{}
+	// a site is an HMAC call in DeriveChild, or in a helper DeriveChild calls on the receiver (the first HMAC and its
+	// branch moved out): then it is analysed with the helper's parameters bound to the arguments, and `outer` is the
+	// helper call in DeriveChild through which it is reached
+	siteB := map[ssa.CallInstruction]*ana.Builder{}
+	siteOuter := map[ssa.CallInstruction]ssa.CallInstruction{}
+	type cand struct {
+		ci    ssa.CallInstruction
+		b     *ana.Builder
+		outer ssa.CallInstruction
+	}
+	var cands []cand
 	for _, ci := range ana.Calls(fn) {
+		cands = append(cands, cand{ci, b, nil})
+	}
+	for _, ci := range ana.Calls(fn) {
+		cal := ana.StaticRepoCallee(ci.Common())
+		if cal == nil || cal == fn || cal.Blocks == nil || cal.Pkg != fn.Pkg {
+			continue
+		}
+		call := stripObj(b.CallTermAt(ci))
+		if call == nil || call.Op != "call" || len(call.Args) != len(cal.Params) || len(call.Args) == 0 || !call.Args[0].IsParam(0) {
+			continue
+		}
+		hb := c.boundBuilder(call)
+		for _, cj := range ana.Calls(cal) {
+			cands = append(cands, cand{cj, hb, ci})
+		}
+	}
+	for _, cd := range cands {
+		ci := cd.ci
 		cal := ana.StaticRepoCallee(ci.Common())
 		if cal == nil {
 			continue
 		}
-		t := b.CallTermAt(ci)
+		t := cd.b.CallTermAt(ci)
 		keyed := false
 		for _, a := range t.Args {
 			if strings.HasPrefix(a.String(), "load(faddr<ChainCode>") {
@@ -248,6 +277,7 @@ func c02Derive(c *Ctx) {
 			continue
 		}
 		hmacSites = append(hmacSites, ci)
+		siteB[ci], siteOuter[ci] = cd.b, cd.outer
 		name, bd := classify(&ana.Term{Op: "ext", Idx: 0, V: nil, Args: []*ana.Term{t}})
 		if name == "" {
 			r.Viol("C02.ckd-data.layout", c.ipos(ci), "HMAC input is none of the three SLIP-0010 layouts: %s", short(t.String(), 500))
@@ -285,12 +315,29 @@ func c02Derive(c *Ctx) {
 	}
 	// branch structure
 	hardE := plainEdges(edgesMatching(b, "bin<>=>(p1, 2147483648)"))
-	softE := plainEdges(edgesMatching(b, "bin<<>(p1, 2147483648)"))
+	_ = "bin<<>(p1, 2147483648)" // the complement, used through under()
+	// under: the site is reached only past an edge matching one of the patterns — in the routine it sits in, or (for a
+	// site in a helper) on the way to the helper call in DeriveChild
+	under := func(ci ssa.CallInstruction, pats ...string) bool {
+		if mustPass(ci.Parent(), ci.Block(), plainEdges(edgesMatching(siteB[ci], pats...))) {
+			return true
+		}
+		if o := siteOuter[ci]; o != nil {
+			return mustPass(fn, o.Block(), plainEdges(edgesMatching(b, pats...)))
+		}
+		return false
+	}
+	anchor := func(ci ssa.CallInstruction) ssa.CallInstruction {
+		if o := siteOuter[ci]; o != nil {
+			return o
+		}
+		return ci
+	}
 	if hardCall != nil {
-		r.Check(mustPass(fn, hardCall.Block(), hardE), "C02.ckd-data.hardened-branch", c.ipos(hardCall), "hardened layout only under index >= 2^31")
+		r.Check(under(hardCall, "bin<>=>(p1, 2147483648)"), "C02.ckd-data.hardened-branch", c.ipos(hardCall), "hardened layout only under index >= 2^31")
 	}
 	if normCall != nil {
-		r.Check(mustPass(fn, normCall.Block(), softE), "C02.ckd-data.normal-branch", c.ipos(normCall), "normal layout only under index < 2^31")
+		r.Check(under(normCall, "bin<<>(p1, 2147483648)"), "C02.ckd-data.normal-branch", c.ipos(normCall), "normal layout only under index < 2^31")
 	}
 	// Shift call, I phi
 	shifts := ana.CallsTo(fn, "(github.com/wollac/iota-crypto-demo/pkg/slip10.Key).Shift")
@@ -341,6 +388,60 @@ func c02Derive(c *Ctx) {
 				leaves = append(leaves, e)
 			}
 			for _, e := range leaves {
+				// a leaf that is the result of a helper holding sites: every successful exit of the helper returns the digest of
+				// one of its sites
+				viaHelper := false
+				for _, o := range siteOuter {
+					cv := ssa.Value(nil)
+					if o != nil {
+						cv = o.Value()
+					}
+					if cv == nil || !(cv == e || derivesFrom(e, cv)) || viaHelper {
+						continue
+					}
+					viaHelper = true
+					h := ana.StaticRepoCallee(o.Common())
+					var hb *ana.Builder
+					for ci2, o2 := range siteOuter {
+						if o2 == o {
+							hb = siteB[ci2]
+						}
+					}
+					for _, x := range ana.Exits(h) {
+						if x.Panic || hb == nil {
+							continue
+						}
+						if len(x.Results) != 2 || !hb.Of(x.Results[1], x.Instr).Is("nil") {
+							continue // a failing exit (or a shape this rule does not know: then no source is recorded)
+						}
+						// (one Sum shared by the branch HMACs stands for each hash object it may be summing)
+						vals := []ssa.Value{x.Results[0]}
+						if call, isCall := x.Results[0].(*ssa.Call); isCall && call.Call.IsInvoke() && call.Call.Method.Name() == "Sum" {
+							if rp, isPhi := call.Call.Value.(*ssa.Phi); isPhi {
+								vals = phiLeaves(rp)
+							}
+						}
+						for _, rv := range vals {
+							name, _ := classify(hb.Of(rv, x.Instr))
+							var from ssa.CallInstruction
+							for ci2, o2 := range siteOuter {
+								if o2 == o {
+									if v2 := ci2.Value(); v2 != nil && (ssa.Value(v2) == rv || derivesFrom(rv, v2)) {
+										from = ci2
+									}
+								}
+							}
+							if name == "" || from == nil || site[name] != from {
+								iOK = false
+								continue
+							}
+							srcs[from] = true
+						}
+					}
+				}
+				if viaHelper {
+					continue
+				}
 				// each way I is computed is the digest of one of the three HMACs made above
 				name, _ := classify(b.Of(e, shifts[0]))
 				if name == "" {
@@ -394,17 +495,61 @@ func c02Derive(c *Ctx) {
 			np := plainEdges(edgesMatching(b, "un<!>(call<(*"+slipPkg+"ExtendedKey).IsPrivate>(p0))"))
 			noHmacBefore := true
 			for _, ci := range hmacSites {
-				if ana.InstrDominates(ci, e.Instr) {
+				if ana.InstrDominates(anchor(ci), e.Instr) {
 					noHmacBefore = false
 				}
 			}
 			hp = exitMustPass(fn, e, hardE) && exitMustPass(fn, e, np) && noHmacBefore
 		}
 	}
+	if !hp {
+		// the rejection made by the helper that holds the first HMAC, its error handed on by DeriveChild
+		seenOuter := map[ssa.CallInstruction]bool{}
+		for ci, o := range siteOuter {
+			if o == nil || seenOuter[o] {
+				continue
+			}
+			seenOuter[o] = true
+			h, hb := ana.StaticRepoCallee(o.Common()), siteB[ci]
+			okRej := false
+			for _, x := range ana.Exits(h) {
+				if x.Panic || len(x.Results) != 2 {
+					continue
+				}
+				if _, ok := ana.Match("load(global<"+slipPkg+"ErrHardenedChildPublicKey>)", hb.Of(x.Results[1], x.Instr)); ok {
+					hardH := plainEdges(edgesMatching(hb, "bin<>=>(p1, 2147483648)"))
+					npH := plainEdges(edgesMatching(hb, "un<!>(call<(*"+slipPkg+"ExtendedKey).IsPrivate>(p0))"))
+					before := true
+					for ci2, o2 := range siteOuter {
+						if o2 == o && ana.InstrDominates(ci2, x.Instr) {
+							before = false
+						}
+						if o2 == nil && ana.InstrDominates(ci2, o) {
+							before = false
+						}
+					}
+					okRej = exitMustPass(h, x, hardH) && exitMustPass(h, x, npH) && before
+				}
+			}
+			// DeriveChild returns the helper's error on the helper's failure edge
+			handed := false
+			for _, e := range ana.Exits(fn) {
+				if e.Panic {
+					continue
+				}
+				et := b.Of(e.Results[1], e.Instr)
+				if et.Op == "ext" && stripObj(et.Arg(0)).V == o.Value() && o.Value() != nil {
+					handed = handed || exitMustPass(fn, e, plainEdges(edgesMatching(b, "raw:bin<!=>("+termPat(et)+", nil)")))
+				}
+			}
+			hp = hp || okRej && handed
+		}
+	}
 	r.Check(hp, "C02.hardened-pub.reject", c.P.Pos(fn.Pos()), "ErrHardenedChildPublicKey under index >= 2^31 ∧ !IsPrivate, before any HMAC")
 	if hardCall != nil {
 		priv := plainEdges(edgesMatching(b, "call<(*"+slipPkg+"ExtendedKey).IsPrivate>(p0)"))
-		r.Check(mustPass(fn, hardCall.Block(), priv), "C02.hardened-pub.private-only", c.ipos(hardCall), "the hardened layout (which serialises the private key) is used only for private parents")
+		_ = priv
+		r.Check(under(hardCall, "call<(*"+slipPkg+"ExtendedKey).IsPrivate>(p0)"), "C02.hardened-pub.private-only", c.ipos(hardCall), "the hardened layout (which serialises the private key) is used only for private parents")
 	}
 	if ip := c.P.Func("pkg/slip10", "ExtendedKey.IsPrivate"); ip != nil {
 		ib := ana.NewBuilder(c.P, ip)
@@ -424,7 +569,13 @@ func c02Derive(c *Ctx) {
 	okGate := len(vEdges) == 1 && len(assertOK) == 1
 	for _, ci := range ana.Calls(fn) {
 		n := ana.CalleeName(ci.Common())
-		if isHmacSite(hmacSites, ci) || strings.HasSuffix(n, "Key).Shift") {
+		isOuter := false
+		for _, o := range siteOuter {
+			if o != nil && o == ci {
+				isOuter = true
+			}
+		}
+		if isHmacSite(hmacSites, ci) || isOuter || strings.HasSuffix(n, "Key).Shift") {
 			if !mustPass(fn, ci.Block(), gate) {
 				okGate = false
 			}
